@@ -43,10 +43,11 @@ CONF = dict(
  'loop proved sufficient. The models are tied to the Go code by running both on swept / boundary-dense / adversarial inputs and multi-step histories every run, and the '
  "property oracle (round trip, kind preservation, 4-byte alignment, declared lengths, segmentation independence) is evaluated on the implementation's own outputs"),
     level_note=('Trusted: Coq kernel, the hand-written models (validated by the correspondence run), extraction with ExtrOcamlBasic, the harness. AEAD and standard-library readers by contract. '
- 'No axioms (every theorem Closed under the global context).'),
+ 'No axioms (every theorem Closed under the global context). ReadData is driven through in-memory readers of every segmentation; its call sites (exchangeDataTLS / exchangeDataQUIC, '
+ 'i.e. how the bytes of a TLS or QUIC connection reach ReadData) belong to C20, which drives them against scripted peers that write a message in several records (seeded change C14-m15 is decided there).'),
     explanation=('EncodePacket of net/nts silently truncates (copy) instead of failing when a packet exceeds 1024 bytes by less than a field; outside the property (callers cap the cookie count) '
  'and reproduced by the model. ReadData ignores the announced body length of NextProto/Algorithm/Port/Error records and reads 2 bytes: non-canonical bodies desynchronise the stream (model agrees).'),
     timeout_quick=900,
     timeout_thorough=3000,
-    min_cases={'ck.crypt': 90, 'ck.dec': 360, 'ck.enc': 1005, 'csptp.hist': 225, 'csptp.msg.dec': 360, 'csptp.msg.enc': 2652, 'csptp.req.dec': 360, 'csptp.req.enc': 1275, 'csptp.resp.dec': 360, 'csptp.resp.enc': 3566, 'ke.records': 556, 'ke.stream': 150, 'ntp.dec': 526, 'ntp.enc': 2588, 'ntp.hist': 90, 'ntp.set': 3916, 'nts.dec': 450, 'nts.enc': 462, 'nts.resp': 225, 'nts.pos': 225, 'nts.req': 150, 'nts.redec': 150, 'nts.fmt': 110},
+    min_cases={'ck.crypt': 90, 'ck.dec': 360, 'ck.enc': 1005, 'csptp.hist': 225, 'csptp.msg.dec': 360, 'csptp.msg.enc': 2652, 'csptp.req.dec': 360, 'csptp.req.enc': 1275, 'csptp.resp.dec': 360, 'csptp.resp.enc': 3566, 'ke.records': 556, 'ke.stream': 150, 'ntp.dec': 526, 'ntp.enc': 2588, 'ntp.hist': 90, 'ntp.set': 3916, 'nts.dec': 450, 'nts.enc': 462, 'nts.resp': 225, 'nts.pos': 225, 'nts.req': 150, 'nts.redec': 150, 'nts.fmt': 110, 'dec.input': 4000},
 )
